@@ -252,6 +252,8 @@ def drive(strategy, check_case, acc, max_examples, seed, shrink_calls=250, label
 
 def save_replay(prop, failure):
     d = os.path.join(VERIF, "replays", prop, "found")
+    if os.environ.get("MVF_NO_EVIDENCE"):
+        d = os.path.join(os.environ.get("MVF_SCRATCH", "/tmp"), "found", prop)
     os.makedirs(d, exist_ok=True)
     body = dict(property=prop, rule=failure["rule"], signature=failure["signature"],
                 message=failure["message"], case=failure["case"])
@@ -297,8 +299,11 @@ def finish(prop, tier, seed, level, merged, rule, assumptions, t0, extra_cov=Non
         cov.update(extra_cov)
     ev = dict(property_id=prop, tier=tier, seed=int(seed), level=level, coverage=cov,
               assumptions=list(assumptions), wall_s=round(wall, 2), violations=len(by_sig))
-    os.makedirs(os.path.join(VERIF, "evidence"), exist_ok=True)
-    with open(os.path.join(VERIF, "evidence", prop + ".json"), "w") as f:
+    evdir = os.path.join(VERIF, "evidence")
+    if os.environ.get("MVF_NO_EVIDENCE"):      # sensitivity runs against scratch copies (mvf.mutate)
+        evdir = os.path.join(os.environ.get("MVF_SCRATCH", "/tmp"), "evidence")
+    os.makedirs(evdir, exist_ok=True)
+    with open(os.path.join(evdir, prop + ".json"), "w") as f:
         json.dump(ev, f, indent=1, sort_keys=True, default=str)
 
     if merged["harness_errors"]:
